@@ -26,5 +26,9 @@ func VerifDoTrim(w Wal) error {
 
 // VerifHeaderSize is the per-record overhead of the codec new segments are written with.
 func VerifHeaderSize(w Wal) uint32 {
-	return w.(*wal).currentSegment.(*readWriteSegment).c.codec.GetHeaderSize()
+	seg := w.(*wal).currentSegment
+	if v, ok := seg.(*verifRW); ok { // instrumented by VerifInstrument (zz_verif_wal2.go)
+		seg = v.ReadWriteSegment
+	}
+	return seg.(*readWriteSegment).c.codec.GetHeaderSize()
 }
